@@ -333,6 +333,9 @@ func main() {
 		records = append(records, r.records...)
 	}
 	wk := <-wch
+	if os.Getenv("C17_ONLY") == "" {
+		thresholdPhase(wk)
+	}
 	enumWall := time.Since(enumStart)
 	preAttrEval := atomic.LoadInt64(&nArchEval)
 	attrStart := time.Now()
@@ -366,6 +369,81 @@ func main() {
 		run.Capped(fmt.Sprintf("time budget %s reached: %d generated archives not run", budget, notRun))
 	}
 	run.Finish()
+}
+
+// thresholdPhase: archives around the entry count at which the end record's
+// 16-bit fields stop being enough (65535 is also the ZIP64 marker value). Each
+// is checked as it stands, every writer operation is applied once and what it
+// wrote is read back. These archives are far outside what the minimiser can
+// shrink member by member, so their symptoms are keyed directly by symptom and
+// entry count.
+func thresholdPhase(wk *worker) {
+	counts := []int{65534, 65535}
+	if run.Thorough() {
+		counts = []int{65533, 65534, 65535, 65536}
+	}
+	type level struct {
+		name string
+		z64  int
+	}
+	for _, n := range counts {
+		for _, lv := range []level{{"plain-end-record", 0}, {"zip64end=masked", 1}} {
+			if time.Now().After(deadline) {
+				capHit.Store(true)
+				return
+			}
+			spec := zipgen.Archive{ForceZip64: lv.z64}
+			for i := 0; i < n; i++ {
+				spec.Members = append(spec.Members, M{Size: 1})
+			}
+			label := fmt.Sprintf("members=%d+%s", n, lv.name)
+			if n > 65535 && lv.z64 == 0 {
+				continue // does not exist
+			}
+			blob, lay := zipgen.Build(spec)
+			v, why := consensus(py, blob)
+			run.Eval(1)
+			if why != "" {
+				run.Outcome("threshold:out-of-scope:" + label + ":" + strings.SplitN(why, ":", 2)[0])
+				continue
+			}
+			if len(v.Members) != len(lay.Members) || v.StartDir != lay.CDOffset {
+				run.Violation("harness-generator-layout-mismatch", "threshold archive "+label, label)
+				continue
+			}
+			totals := make([]int64, len(lay.Members))
+			for i, m := range lay.Members {
+				totals[i] = m.TotalLen
+			}
+			ex := &expect{view: v, totals: totals}
+			run.Distinct("threshold|" + label)
+			run.AddStates(1)
+			seen := map[string]bool{}
+			emit := func(path []string, near *zipgen.Archive, nearPath []string, s symptom) {
+				grp := stageGroup(s.Stage)
+				key := fmt.Sprintf("%s:%s:%s:%s|%s", s.Kind, grp, strings.TrimPrefix(s.Stage, "op-"), s.Class, label)
+				if len(path) > 0 && grp != "writer" {
+					key = fmt.Sprintf("%s:%s:%s:%s@%s|%s", s.Kind, grp, s.Stage, s.Class, pathKey(path), label)
+				}
+				if s.Kind == "panic" {
+					key = "panic:" + s.Class
+				}
+				if seen[key] {
+					return
+				}
+				seen[key] = true
+				run.Violation(key, fmt.Sprintf("archive with %d one-byte stored members, %s, writer path [%s]: %s — %s", n, lv.name, pathKey(path), s.ID(), s.Desc), map[string]any{"members": n, "end_records": lv.name, "writer_path": path, "symptom": s})
+			}
+			explore(wk, &spec, blob, ex, nil, []string{}, emit)
+			for _, op := range opNames {
+				run.AddTransitions(1)
+				explore(wk, &spec, blob, ex, nil, []string{op}, emit)
+			}
+			if len(seen) == 0 {
+				run.Outcome("threshold:all-checks-agree:" + label)
+			}
+		}
+	}
 }
 
 // replay re-executes the single case stored in a replay file and prints what
